@@ -162,7 +162,7 @@ def b2(ctx):
         f = ctx.method('Cache', name)
         ok, why, wit = True, '', None
         nhit = nmiss = 0
-        for p in ctx.paths(f, 'plain'):
+        for p in ctx.paths(f, 'default'):
             if p.kind != 'return':
                 continue
             et, tg = _flag(p, 'expire_time'), _flag(p, 'tag')
@@ -463,3 +463,36 @@ def i1(ctx):
         obs.append(Ob('I1', 'Deque.%s/via-index' % meth, ok, 'Deque.%s does not resolve the position with _index and '
                       'apply Cache.%s' % (meth, func), f.loc()))
     return obs
+
+
+@rule('B6', floor=2, title='reset(key, value) writes through to the Settings table whenever update is requested')
+def b6(ctx):
+    f = ctx.method('Cache', 'reset')
+    ok, n, wit = True, 0, None
+    okr, nr = True, 0
+    for p in ctx.paths(f, 'plain'):
+        if p.kind == 'cut':
+            continue
+        val = V('param', 'value', 'core')
+        sentinel = p.st.facts.get(('eq', frozenset((val, V('modconst', 'core', 'ENOVAL')))))
+        upd = p.st.facts.get(('truthy', V('param', 'update', 'core')))
+        writes = [e for e in sql_events(p.trace, 'update', 'Settings')]
+        reads = [e for e in sql_events(p.trace, 'select', 'Settings')]
+        if sentinel is True:
+            nr += 1
+            if writes or not reads or p.kind != 'return':
+                okr = False
+            elif not (p.outcome[1].k == 'col' and p.outcome[1].a[1] == 'value'):
+                okr = False
+        elif sentinel is False and upd is True and p.kind in ('return', 'next'):
+            n += 1
+            if len(writes) != 1:
+                ok, wit = False, fmt_trace(p.trace)
+        elif sentinel is False and upd is False and writes:
+            ok, wit = False, fmt_trace(p.trace)
+    return [Ob('B6', 'Cache.reset/read-form', okr and nr > 0, 'reset(key) must read the value from the Settings table '
+               '(not from the per-handle attribute) and return it', f.loc()),
+            Ob('B6', 'Cache.reset/write-through', ok and n > 0,
+               'reset(key, value) skips the UPDATE of the Settings table on some path although update is requested '
+               '(e.g. when the per-handle cached attribute already equals the value): a setting changed by another '
+               'handle in between is silently kept', f.loc(), wit)]
